@@ -744,7 +744,15 @@ def post_c14(results, workdir, notes):
 
 def plan_c14(tier, seed, workdir, case):
     t = Target("c14_json", "targets/c14_json.cpp", mode="rc", extra=("-O2",))
-    return [Run(t, args=["--data", DATA_DIR], nshards=1 if case else 16, timeout=3000)]
+    if case is not None:
+        if case.get("kind") == "fuzz":  # a libFuzzer artefact: the bytes are the JSON text
+            return [Run(t, args=["--data", DATA_DIR])]
+        return [Run(t, args=["--data", DATA_DIR])]
+    fz = Target("c14_fuzz", "targets/fz_diff.cpp", mode="fuzz", defs=("VF_WHICH=1",))
+    q = tier == "quick"
+    return [Run(t, args=["--data", DATA_DIR], nshards=16, timeout=3000),
+            Run(fz, args=[DATA_DIR], nshards=8, timeout=3000,
+                fuzz=dict(runs=150000 if q else 4000000, max_len=96, dict=os.path.join(VERIF, "targets", "json.dict"), max_total_time=300 if q else 1800))]
 
 
 spec("C14", plan=plan_c14, post=post_c14,
@@ -753,7 +761,9 @@ spec("C14", plan=plan_c14, post=post_c14,
           "characters, quote, backslash, digits, sign, '.', e/E, letters of the literals, space, LF, 0x1f, 0x7f, a stray continuation byte, "
           "one 2-byte character); rapidcheck-generated documents (depth <= 5, numbers of all forms, strings with every escape, surrogate "
           "escapes, 1-4 byte characters, whitespace everywhere), every truncation of each and 12 single-edit mutants of each (delete / "
-          "insert / replace / swap with JSON-significant and UTF-8-significant bytes); nesting 1..300.  Any exception is a violation.  "
+          "insert / replace / swap with JSON-significant and UTF-8-significant bytes); nesting 1..300; a coverage-guided libFuzzer campaign "
+          "(8 jobs x 150 k executions, thorough 4 M, JSON dictionary, seeded from the repository's data files) with the same differential "
+          "oracle inside the target under ASan/UBSan.  Any exception is a violation.  "
           "Non-trivial: strings the oracle accepts and single-edit mutants of accepted documents; distinct by hash of the text.  The "
           "oracle itself is cross-checked against Python's json on the sampled documents every run.",
      assumptions=COMMON_ASSUME + ["oracles/json_ref.hpp transcribes RFC 8259; cross-checked every run against Python's json module on up to 64000 sampled strings"])
@@ -768,7 +778,13 @@ def post_selftest(results, workdir, notes):
 
 def plan_c20(tier, seed, workdir, case):
     t = Target("c20_uri", "targets/c20_uri.cpp", mode="rc", extra=("-O2",))
-    return [Run(t, nshards=1 if case else 16, timeout=3000)]
+    if case is not None:
+        return [Run(t)]
+    fz = Target("c20_fuzz", "targets/fz_diff.cpp", mode="fuzz", defs=("VF_WHICH=2",))
+    q = tier == "quick"
+    return [Run(t, nshards=16, timeout=3000),
+            Run(fz, nshards=8, timeout=3000,
+                fuzz=dict(runs=20000 if q else 600000, max_len=64, dict=os.path.join(VERIF, "targets", "uri.dict"), max_total_time=300 if q else 1800))]
 
 
 spec("C20", plan=plan_c20, post=post_selftest,
@@ -777,7 +793,8 @@ spec("C20", plan=plan_c20, post=post_selftest,
           "length 5 (thorough 6) over the alphabet a 1 : / ? # [ ] @ % . - F for URI, URI-reference, absolute-URI, IPv4address, "
           "IPv6address (each followed by eof); structured IPv4/IPv6 texts (21 octet texts incl. 0..300, leading zeros; 0..9 groups x '::' "
           "at every position x embedded IPv4 x group texts of 0..5 hex digits), also embedded as host / IP-literal; rapidcheck random "
-          "derivations from the ABNF (random case of case-insensitive literals) and 10 single-edit mutants of each.  parse_error = "
+          "derivations from the ABNF (random case of case-insensitive literals) and 10 single-edit mutants of each; a libFuzzer campaign "
+          "(8 jobs x 20 k executions, thorough 600 k, URI dictionary, rule selector byte) with the same oracle in the target.  parse_error = "
           "rejection, any other exception = violation.  Non-trivial: derivable strings, structured address texts and mutants of "
           "derivations; distinct by text.",
      assumptions=COMMON_ASSUME + ["oracles/uri_abnf_ref.hpp transcribes RFC 3986 Appendix A; oracles/abnf_ref.hpp implements ABNF matching exactly (quoted strings case-insensitive)"])
